@@ -100,3 +100,13 @@ def outside_trash_diff(s0, s1, trashes):
             continue
         out.append((k, snap.fmt_entry(x), snap.fmt_entry(y)))
     return out
+
+
+def created_inside(s0, s1, trashes):
+    """paths inside the trash dirs that exist after a purging command but did
+    not exist before it (purging commands only remove)"""
+    out = []
+    for k in s1:
+        if k not in s0 and any(k == t or k.startswith(t + '/') for t in trashes):
+            out.append(k)
+    return sorted(out)
